@@ -579,3 +579,61 @@ pub fn gen_import_sets(per_set: usize) -> Vec<Vec<TableDef>> {
     }
     out
 }
+
+// ------------------------------------------------------------------ systematic name shapes (C17)
+/// Shapes for every name-sanitising function of the exporters (sanitize_field_name, to_pascal_case,
+/// enum_variant_name, pluralize, to_snake_case, infer_field_name_from_fk_column, generate_relation_enum_name and the
+/// Python to_pascal_case / to_screaming_snake_case): leading / trailing / double separators, a separator followed
+/// by a digit, digits only, mixed case, Rust and Python keywords, non-ASCII, empty after sanitising.
+pub const NAME_SHAPES: &[&str] = &[
+    "_x", "x_", "__x", "x__y", "_x_", "-x", "x-", "x--y", "-x-", "x-y_z", "_-x",
+    "_2fa", "-5c", "__9", "x_2", "x-2y", "a_1_b",
+    "2fa", "123", "0", "7_up", "9-to-5",
+    "MixedCase", "camelCase", "UPPER", "UPPER_SNAKE", "Title_Case", "xY", "aB_cD",
+    "type", "match", "self", "Self", "crate", "super", "fn", "async", "yield", "box", "try", "dyn", "mod",
+    "class", "from", "import", "None", "def", "lambda", "pass", "True", "global",
+    "이름", "été", "ß", "naïve_id", "x_이름",
+    "", "_", "-", "__", "--", "_-_", "!", "a b", "a.b", "y", "key", "category", "status_id", "id",
+];
+
+/// One model set per shape `s`: a table with a column named `s`, a string enum and an integer enum that both have
+/// the label `s` and are named after `s`; a table named `s`; a child table with two foreign keys `<s>_id` and
+/// `owner_<s>_id` to it (forward, reverse and relation-enum names derived from `s`).  Deterministic.
+pub fn gen_name_shape_sets() -> Vec<Vec<TableDef>> {
+    let mut out = vec![];
+    for (i, s) in NAME_SHAPES.iter().enumerate() {
+        let mut sets: Vec<TableDef> = vec![];
+        let mut a = base_table(format!("shape{}", i));
+        if *s != "id" {
+            a.columns.push(col(s, ColumnType::Simple(SimpleColumnType::Text), true));
+        }
+        let ename = if s.is_empty() { "e".to_string() } else { s.to_string() };
+        let other = if *s == "plain" { "other" } else { "plain" };
+        a.columns.push(col("es", ColumnType::Complex(ComplexColumnType::Enum { name: ename.clone(), values: EnumValues::String(vec![s.to_string(), other.to_string()]) }), false));
+        a.columns.push(col("ei", ColumnType::Complex(ComplexColumnType::Enum { name: format!("{}_n", ename),
+            values: EnumValues::Integer(vec![NumValue { name: s.to_string(), value: 1 }, NumValue { name: other.to_string(), value: 2 }]) }), true));
+        sets.push(a);
+        if !s.is_empty() {
+            let b = base_table(s.to_string());
+            let mut c = base_table(format!("child{}", i));
+            for cn in [format!("{}_id", s), format!("owner_{}_id", s)] {
+                c.columns.push(col(&cn, int(), false));
+                c.constraints.push(TableConstraint::ForeignKey { name: None, columns: vec![cn], ref_table: s.to_string(), ref_columns: vec!["id".into()], on_delete: None, on_update: None });
+            }
+            sets.push(b);
+            sets.push(c);
+        }
+        match normalized_slice(&sets) {
+            Some(n) if gener::loader_accepts(&n) => out.push(n),
+            _ => {
+                // keep what the loader accepts of it (the label table alone)
+                if let Some(n) = normalized_slice(&sets[..1]) {
+                    if gener::loader_accepts(&n) {
+                        out.push(n);
+                    }
+                }
+            }
+        }
+    }
+    out
+}
